@@ -1,9 +1,38 @@
 import RegexVerif.Sexp
+import RegexVerif.Model.Groups
 
 namespace RegexVerif.Driver
 open RegexVerif Sexp
 
-/-- protocol lines with head `c17` (stub) -/
-def handleC17 (_args : List Sexp) : String := "(unimplemented)"
+private def c17Event (e : Sexp) : Option Groups.Event :=
+  match e with
+  | .list [.atom "u"] => some .unnamed
+  | .list [.atom "x"] => some .noncap
+  | .list [.atom "k", n] => n.nat?.map .numbered
+  | .list [.atom "z", n] => n.nat?.map .numbered0
+  | .list [.atom "n", cps] => cps.nats?.map fun l => .named (String.ofList (l.map Char.ofNat))
+  | _ => none
+
+private def c17Name (s : String) : Sexp := ofNats (s.toList.map Char.toNat)
+
+/-- `(c17 (cfg mco ecma n) (evs ev…))` ↦
+    `(ok (nums (…)) (names (…)…) (caps nil | (k v)…) (capsize c) (ev (…)))` or `(err)` -/
+def handleC17 (args : List Sexp) : String :=
+  match lookup "cfg" args, lookup "evs" args with
+  | some [a, b, c], some evs =>
+    match a.bool?, b.bool?, c.bool?, evs.mapM c17Event with
+    | some mco, some ecma, some n, some es =>
+      match Groups.assign es { mco := mco, ecma := ecma, explicitCapture := n } with
+      | none => "(err)"
+      | some m =>
+        let caps : Sexp := match m.codeCaps with
+          | none => mk "caps" [atom "nil"]
+          | some l => mk "caps" ((List.range l.length).zip l |>.map fun (i, k) => list [ofNat k, ofNat i])
+        let ev : List Int := m.evNums.map fun o => match o with | some k => (k : Int) | none => -1
+        toString (mk "ok" [mk "nums" [ofNats (Groups.getGroupNumbers m)],
+                           mk "names" ((Groups.getGroupNames m).map c17Name),
+                           caps, mk "capsize" [ofNat m.capsize], mk "ev" [ofInts ev]])
+    | _, _, _, _ => "(bad-op)"
+  | _, _ => "(bad-op)"
 
 end RegexVerif.Driver
